@@ -7,3 +7,5 @@ def check(rep, tier):
     rep.run(rules_scalar.run, rep, tier, adjoint=True)
     from contracts import rules_exact
     rep.run(rules_exact.run, rep, tier, rules_exact.CLAUSE_PROPS["C04"])
+    rep.run(rules_exact.run, rep, tier, ("X-vjp", "X-jvp", "X-shape", "X-jvp-shape"), which="index")
+    rep.run(rules_exact.run, rep, tier, ("X-shape", "X-jvp-shape"))
